@@ -19,6 +19,7 @@ CONSTANT Shard
 Nm(x, n) == [s |-> x, i |-> n]
 C(k, c, i, e, s, nm) == [k |-> k, c |-> c, i |-> i, e |-> e, s |-> s, nm |-> nm]
 IntC(n) == C("ScalarInt", <<>>, n, 0, "", <<>>)
+Big(k) == C("ScalarInt", <<>>, k, 0, "big", <<>>)       \* 2^53 + k
 RealC(n, e) == C("ScalarFloat", <<>>, n, e, "", <<>>)
 Str(x, n) == C("StringLiteral", <<>>, n, 0, x, <<>>)
 NilC == C("ScalarNil", <<>>, 0, 0, "", <<>>)
@@ -96,6 +97,9 @@ TableMakers == << <<SetV("t", 1, Arr(<<>>))>>,
                     C("SetProperty", <<IntC(5), Rd("t", 1), IntC(0)>>, 0, 0, "", <<>>),
                     C("SetProperty", <<IntC(4), Rd("t", 1), IntC(3)>>, 0, 0, "", <<>>),
                     C("SetProperty", <<IntC(5), Rd("t", 1), IntC(1)>>, 0, 0, "", <<>>)>>,
+                  \* integers that differ only beyond the precision of a 64-bit real (2^53 + 2, + 1, + 0 and the other way round)
+                  <<SetV("t", 1, Arr(<<Big(2), Big(1), Big(0)>>))>>,
+                  <<SetV("t", 1, Arr(<<Big(0), Big(1), Big(2), IntC(7)>>))>>,
                   \* entries whose value is nil are entries like any other
                   <<SetV("t", 1, Arr(<<IntC(4), NilC, IntC(6), NilC>>))>>,
                   <<SetV("t", 1, C("CreateTable", <<>>, 0, 0, "", <<>>)),
